@@ -349,7 +349,7 @@ var c06LeafList = func() []c06Leaf {
 	return l
 }()
 
-const c06NComp = 6 // If While Iter Call Handled Recursive
+const c06NComp = 7 // If While Iter Call Handled Recursive IfYield
 
 type c06Node struct {
 	leaf int // >= 0: leaf index
@@ -461,6 +461,10 @@ func (b *c06Builder) stmt(n *c06Node) []zn.Stmt {
 	switch n.comp {
 	case 0:
 		return []zn.Stmt{zn.If{Cond: zn.Var{Name: "真"}, Then: inner}}
+	case 6:
+		// the condition binds a name with 得到: the name belongs to the block that CONTAINS
+		// the 如果 (the condition is evaluated there), not to the branch body
+		return []zn.Stmt{zn.If{Cond: zn.Bin{Op: ">", L: zn.Call{Name: "取", Args: []zn.Expr{b.num()}, Yield: "甲"}, R: zn.Num{Lit: "0"}}, Then: inner}}
 	case 1:
 		cn := fmt.Sprintf("W%d", id)
 		body := append([]zn.Stmt{zn.ExprStmt{E: zn.Assign{Target: zn.Var{Name: cn}, Val: zn.Bin{Op: "+", L: zn.Var{Name: cn}, R: zn.Num{Lit: "1"}}}}}, inner...)
@@ -568,6 +572,73 @@ func c06CheckProgram(m int, idx int64) (f *mc.Failure, open bool) {
 	return nil, false
 }
 
+// ---------------------------------------------------------------- depth family
+
+// c06DeepCount: for every depth 1..D, 2 symbol-table histories and 4 programs.
+const c06DeepKinds = 6
+
+// c06Deep checks one member of the depth family: blocks / calls nested d deep,
+// a name declared at the bottom, everything ended again.
+func c06Deep(d, kind int) *mc.Failure {
+	switch kind {
+	case 0, 1:
+		var hist []c06Op
+		if kind == 1 {
+			hist = append(hist, c06Op{"decl", "甲"})
+		}
+		for i := 0; i < d; i++ {
+			hist = append(hist, c06Op{Kind: "begin"})
+		}
+		hist = append(hist, c06Op{"decl", "甲"}, c06Op{"declc", "乙"})
+		for i := 0; i < d; i++ {
+			hist = append(hist, c06Op{Kind: "end"})
+		}
+		hist = append(hist, c06Op{"set", "甲"})
+		f := c06CheckHistory(hist)
+		if f != nil {
+			f.Case = mc.J(c06Case{Part: "deep", M: d, Idx: int64(kind)})
+			f.Bucket = "deep-symtab"
+		}
+		return f
+	}
+	// programs: recursion d deep whose input is named like a caller variable
+	call := "（深：层 - 1）"
+	body := "    如果层 > 0：\n        " + call + "\n    输出层"
+	switch kind {
+	case 3: // the recursive call is an operand: the caller's block is still open around it
+		body = "    如果层 <= 0：\n        输出0\n    输出（深：层 - 1） + 层"
+	case 4: // a local declared at every level
+		body = "    令地 = 层 * 2\n    如果层 > 0：\n        令内 = 地\n        " + call + "\n    输出地"
+	case 5: // through a method of an object
+		body = ""
+	}
+	src := "如何深？\n    输入层\n" + body + "\n令层 = -7\n令地 = -8\n令果 = （深：" + fmt.Sprint(d) + "）\n输出【层，地】"
+	if kind == 5 {
+		src = "定义型：\n    其P = 1\n    如何深？\n        输入层\n        如果层 > 0：\n            以其自身（深：层 - 1）\n        输出层\n令物 = （新建型）\n令层 = -7\n令地 = -8\n令果 = 以物（深：" + fmt.Sprint(d) + "）\n输出【层，地】"
+	}
+	cs := mc.J(c06Case{Part: "deep", M: d, Idx: int64(kind), Source: src})
+	got, vm := zn.RunRealVM(src, nil)
+	if got.Panic != "" {
+		return &mc.Failure{Kind: "panic", Bucket: "deep-program", Case: cs, Observed: got.Panic, Detail: got.Stack}
+	}
+	want := zn.Canon(&zn.LV{Items: []zn.V{float64(-7), float64(-8)}})
+	if got.Err != nil || got.Val != want {
+		obs := "value " + got.Val
+		if got.Err != nil {
+			obs = fmt.Sprintf("%s error %d %s", got.Err.Kind, got.Err.Code, got.Err.Msg)
+		}
+		return &mc.Failure{Kind: "mismatch", Bucket: "deep-program", Case: cs, Expected: "the caller's own 层 and 地 after the calls returned: " + want, Observed: obs}
+	}
+	if vm != nil {
+		for _, st := range vm.VerifScopeStats() {
+			if st.Depth != 0 {
+				return &mc.Failure{Kind: "mismatch", Bucket: "deep-program", Case: cs, Expected: "all blocks ended (depth 0)", Observed: fmt.Sprintf("module %d depth %d live %d", st.ModuleID, st.Depth, st.Live)}
+			}
+		}
+	}
+	return nil
+}
+
 func c06Sig(prog *zn.Program, src string, werr *zn.ZErr, got *zn.Outcome, rf *zn.Ref) string {
 	return ""
 }
@@ -577,7 +648,8 @@ func init() {
 		ID:    "C06",
 		Level: "model_checking",
 		Rule: "E2: breadth-first search over histories of {begin, end, declare x|y, declare-const x|y, set x|y, declare/set of predefined names} on the real runtime.VM symbol table; every successor is built by replaying its history on a fresh VM; dedup on the model state after the observation battery (both lookups, block depth, live symbols) agreed; step error codes 42/43/44 and the observation are compared with a stack-of-maps model in every state. " +
-			"E1: every statement tree <= k nodes (nesting <= 3) over 19 actions (a failing built-in method call, declare, declare from the same outer name, constant, assign, probe on 甲 乙 参, predefined names, 得到 in both call forms, assignment to a method / type name) inside 6 block kinds (branch, one-pass 每当, one-element 遍历, method call, method ending in a handled exception, recursion depth 3), real interpreter vs reference interpreter on trace, error code and final scope/call depth.",
+			"Depth family: for every depth 1..300 (700 thorough): begin x d, declare, end x d on the symbol table (with and without an outer declaration of the same name) against the model, and four recursive programs d calls deep whose input / local are named like caller variables (plain, call as an operand, a local per level, a method of an object): after the calls return the caller reads its own values and every block has ended. " +
+			"E1: every statement tree <= k nodes (nesting <= 3) over 19 actions (a failing built-in method call, declare, declare from the same outer name, constant, assign, probe on 甲 乙 参, predefined names, 得到 in both call forms, assignment to a method / type name) inside 7 block kinds (branch, branch whose condition binds a name with 得到, one-pass 每当, one-element 遍历, method call, method ending in a handled exception, recursion depth 3), real interpreter vs reference interpreter on trace, error code and final scope/call depth.",
 		Assumptions: []string{
 			"reference model: lexical block scoping as stated by the property; runs whose outcome depends on a callee seeing a caller's block-local name (dynamic scoping, manual silent) are skipped and counted (open_dynamic_scope)",
 			"error codes are compared only where the error channel keeps them (not across a call boundary); assignment to a predefined name must be rejected, code not compared",
@@ -598,6 +670,28 @@ func init() {
 			if c.Shard == 0 {
 				c06BFS(c, H, 4)
 			}
+			// depth family: every nesting / recursion depth 1..D
+			D := 300
+			if c.Tier == "thorough" {
+				D = 700
+			}
+			c.Describe = func(idx int64) json.RawMessage {
+				k := idx - (1 << 39)
+				return mc.J(c06Case{Part: "deep", M: int(k/c06DeepKinds) + 1, Idx: k % c06DeepKinds})
+			}
+			for k := int64(0); k < int64(D*c06DeepKinds); k++ {
+				idx := int64(1<<39) + k
+				if !c.Mine(idx) {
+					continue
+				}
+				c.CaseIdx(idx)
+				if f := c06Deep(int(k/c06DeepKinds)+1, int(k%c06DeepKinds)); f != nil {
+					c.Fail(*f)
+				}
+				c.Eval(true)
+				c.Stat("depth_family_cases", 1)
+			}
+			c.Bound("depth_family", fmt.Sprintf("complete: every depth 1..%d x %d shapes", D, c06DeepKinds))
 			base := int64(1 << 40)
 			for m := 1; m <= K; m++ {
 				total := c06CountB(m, c06Depth)
@@ -638,6 +732,12 @@ func init() {
 			var cs c06Case
 			if err := json.Unmarshal(raw, &cs); err != nil {
 				c.Fail(mc.Failure{Kind: "crash", Observed: err.Error()})
+				return
+			}
+			if cs.Part == "deep" {
+				if f := c06Deep(cs.M, int(cs.Idx)); f != nil {
+					c.Fail(*f)
+				}
 				return
 			}
 			if cs.Part == "symtab" {
